@@ -354,6 +354,19 @@ func c11Worker(tier Tier) int {
 			add("ESDTNFTCreateRoleTransfer/create-stored-twice", dup.W, uni.SysCall(uni.A0, vmcommon.BuiltInFunctionESDTNFTCreateRoleTransfer, uni.S, uni.B0))
 			add("ESDTNFTCreateRoleTransfer/create-stored-twice-cross-shard", dup.W, uni.SysCall(uni.A0, vmcommon.BuiltInFunctionESDTNFTCreateRoleTransfer, uni.S, uni.C1))
 			add("ESDTSetRole/name-given-twice", dup.W, uni.SetRole(uni.B0, uni.S, vmcommon.ESDTRoleNFTBurn, vmcommon.ESDTRoleNFTBurn))
+			// every transfer class of the catalogue again with a payability oracle that answers
+			// every query with an error (an environment answer C09 quantifies over)
+			for _, c := range cat {
+				if c.Act.Kind == world.ActCall && world.TransferFuncs[c.Func] {
+					w := c.W.Clone()
+					for _, d := range [][]byte{uni.A0, uni.B0, uni.C1, uni.S0, uni.S1c, uni.E2} {
+						w.Payable[string(d)] = world.PayError
+					}
+					plain := c.Act
+					sweepOnly = append(sweepOnly, CatEntry{Name: c.Name + "[payability-error]", Func: c.Func, W: w, Act: plain, Light: true})
+				}
+			}
+			add("ESDTNFTCreateRoleTransfer/to-the-holder-itself", dup.W, uni.SysCall(uni.B0, vmcommon.BuiltInFunctionESDTNFTCreateRoleTransfer, uni.S, uni.B0))
 			for _, to := range [][]byte{uni.B0, uni.C1, uni.S0, uni.S1c} {
 				for _, n := range []int{1, 2, 3, 4, 5, 6, 8, 11, 16, 21, 32} {
 					var ents []uni.Ent
